@@ -357,6 +357,10 @@ func RunConc(sc *ConcScenario, want Want) *ConcResult {
 		if !victimStuck {
 			sim.EndEarly = false
 			sim.Spawn(fmt.Sprintf("readout%d", pi), func() {
+				if cacheFam && hasTick(ph) {
+					exec(Op{K: CDeleteExpired}) // flush: whatever is still expired and present is reported now
+					noteKeys(w.recs[recStart:]) // a re-entrant callback may have stored under new keys
+				}
 				keys := sortedKeys(known)
 				for _, k := range keys {
 					if cacheFam {
@@ -576,6 +580,11 @@ func RunConc(sc *ConcScenario, want Want) *ConcResult {
 	// ---- evicted-callback ledger (C06) ----
 	if want.Ledger && cacheFam {
 		res.checkLedger(w, sc, state)
+	}
+	// ---- DeleteExpired removes everything that is expired (C08: Count equals
+	// the live-entry count right after DeleteExpired) ----
+	if want.Size && cacheFam {
+		res.checkSweepComplete(w)
 	}
 	res.collect(sim, w)
 	return res
@@ -1320,4 +1329,96 @@ func (res *ConcResult) expiryOfStore(r *Rec, w *World) int64 {
 		return r.Now + d
 	}
 	return 0
+}
+
+func hasTick(ph *Phase) bool {
+	for _, t := range ph.Tasks {
+		for _, op := range t {
+			if op.K == XTick {
+				return true
+			}
+		}
+	}
+	return false
+}
+
+// checkSweepComplete: a value that was certainly expired before a completed
+// DeleteExpired call began, and that is reported as evicted only after that
+// call returned, was present and expired during the whole call: the call left
+// it behind. Sound under concurrency and with a ticking clock (values are
+// unique; a replaced value is never reported; the expiry bound uses the
+// latest clock reading the storing call can have seen).
+func (res *ConcResult) checkSweepComplete(w *World) {
+	if len(w.reports) == 0 {
+		return
+	}
+	type st struct {
+		rec *Rec
+		eHi int64
+	}
+	stored := map[int64]st{}
+	dup := map[int64]bool{}
+	for _, r := range w.recs {
+		if r.Pending {
+			continue
+		}
+		var v, d int64
+		switch r.Op.K {
+		case CSet, CGetAndSet:
+			v, d = r.Op.Val, r.Op.D
+		case CGetOrSet:
+			if r.Ok {
+				continue
+			}
+			v, d = r.Op.Val, r.Op.D
+		default:
+			continue
+		}
+		if d <= 0 || v == 0 {
+			continue // sentinels / never expiring
+		}
+		if _, ok := stored[v]; ok {
+			dup[v] = true
+		}
+		hi := r.NowRet
+		if hi < r.Now {
+			hi = r.Now
+		}
+		stored[v] = st{r, hi + d}
+	}
+	// calls that can move the expiry of a stored value without replacing it
+	touched := func(s st) bool {
+		for _, r := range w.recs {
+			switch r.Op.K {
+			case CGetAndRefresh, CCompute, CGetOrCompute:
+				if r.Op.Key == s.rec.Op.Key && (r.Pending || r.Ret > s.rec.Call) {
+					return true
+				}
+			}
+		}
+		return false
+	}
+	for _, d := range w.recs {
+		if d.Op.K != CDeleteExpired || d.Pending || d.Nested {
+			continue
+		}
+		for _, rp := range w.reports {
+			if rp.Seq <= d.Ret {
+				continue
+			}
+			s, ok := stored[rp.V]
+			if !ok || dup[rp.V] {
+				continue
+			}
+			// the removal happened inside the reporting call, somewhere before
+			// the report: that call must have begun after d returned
+			if rp.OpIx < 0 || rp.OpIx >= len(w.recs) || w.recs[rp.OpIx].Call <= d.Ret {
+				continue
+			}
+			if s.rec.Ret < d.Call && s.eHi < d.Now && !touched(s) {
+				res.add("size-sweep-incomplete", -1, "DeleteExpired %s returned although (k%d,v%d), stored by %s and expired since %d, was still there (it was evicted only later, at seq %d)", d, rp.K, rp.V, s.rec, s.eHi, rp.Seq)
+				return
+			}
+		}
+	}
 }
